@@ -201,7 +201,7 @@ def check_argparse(ns, ir, v):
         if O.normdoc(a.help) != want_help:
             v("argparse_help", want_help, repr(a.help), **pc)
         if a.required:
-            required_args += ["--" + name, "a" if members else "1" if "int" in (base or "") else {"float": "1.5", "bool": "True", "dict": "{}", "list": "[]"}.get(base, "zz")]
+            required_args += ["--" + name, sorted(members)[0] if members else "1" if "int" in (base or "") else {"float": "1.5", "bool": "True", "dict": "{}", "list": "[]"}.get(base, "zz")]
     # parsing no optional arguments yields the described defaults
     try:
         got = parser.parse_args(required_args)
